@@ -47,7 +47,17 @@ class Stream:
         pk_bytes = []
         for p in params["packets"]:
             raw_id = self.ids[p["id"] % len(self.ids)]
-            payload = bytes.fromhex(p["data"]) or b"\x00"
+            if isinstance(p["data"], dict):  # compact description of a long payload
+                payload = bytes((p["data"]["fill"] + i * p["data"].get("step", 0)) & 0xFF for i in range(p["data"]["len"]))
+            else:
+                payload = bytes.fromhex(p["data"]) or b"\x00"
+            if p.get("embed") is not None:
+                # the data field carries a complete, well-formed space packet with a REGISTERED id (a TM dump, a wrapped TC) plus a few octets
+                em = p["embed"]
+                inner_id = self.ids[em["id"] % len(self.ids)]
+                inner_data = bytes.fromhex(em["data"]) or b"\x01"
+                inner = inner_id.to_bytes(2, "big") + (0xC000 | em["seq"]).to_bytes(2, "big") + (len(inner_data) - 1).to_bytes(2, "big") + inner_data
+                payload = bytes.fromhex(em["pre"]) + inner + (bytes.fromhex(em["post"]) or b"\x00")
             w0 = (p["ver"] << 13) | raw_id
             hdr = w0.to_bytes(2, "big") + ((p["flags"] << 14) | p["seq"]).to_bytes(2, "big") + (len(payload) - 1).to_bytes(2, "big")
             pk_bytes.append(hdr + payload)
@@ -144,7 +154,12 @@ def st_ids():
 
 def st_packet(max_data=40):
     data = st.one_of(st.binary(min_size=1, max_size=1), st.binary(min_size=1, max_size=8), st.binary(min_size=1, max_size=max_data))
-    return st.fixed_dictionaries({"id": st.integers(0, 2), "ver": st.sampled_from([0, 0, 0, 1, 5, 7]), "flags": st.integers(0, 3), "seq": uint(14), "data": data.map(bytes.hex)})
+    embed = st.one_of(
+        st.none(), st.none(), st.none(),
+        st.fixed_dictionaries({"id": st.integers(0, 2), "seq": uint(14), "data": st.binary(min_size=1, max_size=6).map(bytes.hex), "pre": st.binary(max_size=2).map(bytes.hex),
+                               "post": st.binary(min_size=1, max_size=4).map(bytes.hex)}),
+    )
+    return st.fixed_dictionaries({"id": st.integers(0, 2), "ver": st.sampled_from([0, 0, 0, 1, 5, 7]), "flags": st.integers(0, 3), "seq": uint(14), "data": data.map(bytes.hex), "embed": embed})
 
 
 def st_stream(max_packets=6, garbage=True, big=True):
@@ -213,6 +228,8 @@ def _schedule_classes(case):
         out.append("chunk shorter than 6")
     if s.has_garbage:
         out.append("garbage")
+    if any(p.get("embed") is not None for p in case["stream"]["packets"]):
+        out.append("payload embeds a complete registered packet")
     if len(s.packets) >= 2:
         out.append(">= 2 packets")
     if not case["parse_always"] and case["parse"] and not all(case["parse"]):
@@ -279,8 +296,18 @@ SHORT_STREAMS = [
 ]
 
 
+MAX_SIZE_STREAM = {"ids": [0x0805], "packets": [{"id": 0, "ver": 0, "flags": 3, "seq": 1, "data": {"len": 65536, "fill": 1, "step": 3}}, {"id": 0, "ver": 0, "flags": 3, "seq": 2, "data": "aabb"}], "garbage": []}
+MAX_SIZE_CUTS = (1, 5, 6, 7, 4096, 65535, 65536, 65541, 65542, 65543, 65548)
+
+
 def enum_fragmentations(tier, shard, nshards, rng):
     idx = 0
+    # a packet of the maximum size a space packet can have (length field 0xFFFF, 65542 octets) followed by a small one: 0, 1 and 2 cuts from a list
+    for r in (0, 1, 2):
+        for cuts in itertools.combinations(MAX_SIZE_CUTS, r):
+            idx += 1
+            if idx % nshards == shard:
+                yield {"stream": MAX_SIZE_STREAM, "cuts": list(cuts), "parse": [], "parse_always": True}
     for si, params in enumerate(SHORT_STREAMS):
         n = len(Stream(params).stream)
         positions = list(range(1, n))
@@ -360,7 +387,7 @@ CLAUSES = [
         check=run_schedule,
         nontrivial=_schedule_nt,
         classify=_schedule_classes,
-        required=["cut inside packet", "cut inside header", "cut right after header", "cut one octet before end", "chunk shorter than 6", "garbage", ">= 2 packets", "several appends per parse"],
+        required=["cut inside packet", "cut inside header", "cut right after header", "cut one octet before end", "chunk shorter than 6", "garbage", ">= 2 packets", "several appends per parse", "payload embeds a complete registered packet"],
         n={"quick": 1200, "thorough": 10000},
     ),
     Clause(
